@@ -174,6 +174,22 @@ Definition check (c : caches) (t : nat) (p : nat) (x : target) : caches * bool :
                   g (fun _ => []) (fun _ => []) p x)
   end.
 
+(* the outermost db_session ends (DBSessionContextManager._commit_or_rollback): the SessionCache - and with it the label cache - is
+   gone; the thread-local group and role caches are cleared on the paths the source clears them on (Gen/C34Src.v) *)
+Definition end_session (clear_on_commit clear_on_rollback committed : bool) (c : caches) : caches :=
+  if (if committed then clear_on_commit else clear_on_rollback) then mkcaches None [] []
+  else mkcaches (c_groups c) (c_roles c) [].
+
+(* a thread's history across sessions: permission checks and session ends (commit or rollback) *)
+Inductive hitem := HCheck (t p : nat) (x : target) | HEnd (committed : bool).
+
+Fixpoint history (cc cr : bool) (c : caches) (h : list hitem) : list bool :=
+  match h with
+  | [] => []
+  | HCheck t p x :: r => let '(c', b) := check c t p x in b :: history cc cr c' r
+  | HEnd committed :: r => history cc cr (end_session cc cr committed c) r
+  end.
+
 (* a history of checks (moment, permission, target), answers in order *)
 Fixpoint checks (c : caches) (h : list (nat * nat * target)) : list bool :=
   match h with
